@@ -34,6 +34,7 @@ MANIFEST = {
             'index, count, n, var, number, mean, x_y give the statistics '
             'they give under x.  Domain offset: values around 1e6 with a '
             'spread of 1.',
+    'more': 'Also: summarised attributes / keys with non-ASCII names.',
     'note': 'Trusted: the Fraction-based reference in this driver; floats '
             'are compared to 1e-9 relative (absolute 1e-12; 1e-6 for a '
             'standard deviation whose true value is 0, because sqrt '
